@@ -423,3 +423,12 @@ Proof.
   destruct (String.eqb k "__a"); [repeat constructor|].
   destruct (String.eqb k "__b"); repeat constructor.
 Qed.
+
+(* 5. an undefined custom property without fallback is not "invalid at computed-value time": the var() is erased
+   and the rest of the declaration is validated - padding: var(--p) 2px computes as padding: 2px (finding
+   var:undefined-dropped; only a value made of the var() alone ends with no tokens, which solve() refuses) *)
+Theorem undefined_var_is_erased :
+  let env := fun _ : string => @nil tok in
+  solved_tokens env 2 [VAR "--p" []; TWs; TAtom 2] = Some (RToks [TWs; TAtom 2]) /\
+  solved_tokens env 2 [VAR "--p" []] = Some (RToks []).
+Proof. split; reflexivity. Qed.
